@@ -18,7 +18,7 @@ from lv import core, model, gen, drive, ref, canon
 from lv.props import common
 
 ID = 'C18'
-BUDGET = {'quick': 640, 'thorough': 9000}          # generated programs
+BUDGET = {'quick': 640, 'thorough': 8000}          # generated programs
 RULE = ('programs from the typed generator plus 1-2 ordered predicates (facts / single '
         'injectible-shaped rule / several rules / disjunction / distinct+aggregation / '
         'functional / constant rows / reading another ordered predicate; key list = a '
